@@ -116,11 +116,13 @@ def run(ctx):
            clause_text='unbind(v, s) removes v iff it is bound and occurs in s; otherwise a ParseError and no change (no vacuous quantifier)')
     from checks import readers
     readers.reader_obligations(ctx)
+    readers.store_obligations(ctx)
     hierarchy(ctx)
     bounded_strings(ctx)
     bounded_scope(ctx)
     bounded_misc(ctx)
     ctx.replayers['C13.'] = lambda r: dict(reproduced=None, detail='see counterexample / meta')
+    ctx.replayers['C13.store.'] = readers.replay_store
 
 def hierarchy(ctx):
     from pytableaux import errors as Er
